@@ -4,7 +4,7 @@ CONSTANTS
   Solver = "dense"
   MCN = 3
   MCLats = {"chain2"}
-  MCFam = "idgenkill"
+  MCFam = "idgen"
   MCParN = 0
   UseJson = TRUE
   EmitCases = TRUE
